@@ -315,6 +315,19 @@ def run(ctx: Ctx) -> int:
     ok1, w1 = D_nod.includes(S_nod)
     ok2, w2 = D_day.includes(S_day)
     ctx.oblige("C20.c.iii", ok1 and ok2, td, "every str(timedelta) spelling (with and without days, with and without microseconds, negative days) is matched by timedelta_deserializer" if ok1 and ok2 else f"str(timedelta) can produce {w1 or w2!r}, which timedelta_deserializer does not match", fn=td, construct="timedelta ser <= deser", details={"witness": w1 or w2})
+    # the fields come from groupdict(): text consumed by an unnamed capturing group is silently dropped
+    try:
+        import re._parser as _sp  # type: ignore
+    except ImportError:  # pragma: no cover
+        import sre_parse as _sp  # type: ignore
+    parsed = _sp.parse(prefix + base)
+    n_groups = parsed.state.groups - 1
+    named = len(parsed.state.groupdict)
+    ok = n_groups == named
+    ctx.oblige("C20.c.iii", ok, td, f"all {n_groups} capturing groups of the timedelta pattern are named (everything matched reaches timedelta)" if ok else f"the timedelta pattern has {n_groups - named} unnamed capturing group(s): the text they match (e.g. the fraction of a second) is dropped by groupdict()", fn=td, construct="timedelta groups named")
+    okf1, wf1 = DFA.from_regex(base).includes(S_nod)
+    okf2, wf2 = DFA.from_regex(prefix + base).includes(S_day)
+    ctx.oblige("C20.c.iii", okf1 and okf2, td, "the pattern consumes every str(timedelta) spelling completely (nothing is left unparsed after the match)" if okf1 and okf2 else f"the pattern matches only a prefix of {wf1 or wf2!r}: the remainder is ignored", fn=td, construct="timedelta full match")
     kw = [n for n in walk_local(td) if isinstance(n, ast.DictComp)]
     groups = set(re.findall(r"\?P<(\w+)>", prefix + base))
     ok = len(kw) == 1 and "float(val)" in ast.unparse(kw[0].value) and "groupdict()" in ast.unparse(kw[0]) and groups == {"days", "hours", "minutes", "seconds"}
